@@ -46,6 +46,7 @@ var c07Policy = map[string]writePolicy{
 
 func c07(c *Ctx) {
 	r := c.R
+	r.Explain = "All seven eBPF programs (every SEC-annotated function of every bpf/*.c file, parsed by clang -fsyntax-only with stand-in libbpf headers) are abstractly interpreted over clang's AST: always-inline helpers are inlined, constant-trip loops unrolled, pointers are (object, linear byte offset) pairs and every comparison against data_end becomes a fact data+L <= data_end.  Each load/store through a packet pointer must be entailed by the facts in force (Fourier-Motzkin over linear forms with interval-bounded symbols such as ihl*4 or a VLAN offset); stack buffers and map values are checked against their object size and map values against a preceding NULL test.  Per return statement the set of frame stores that may precede it is known, which decides 'pass verdict only with the frame unmodified' under a per-program write policy.  Helper internals, alignment, verifier limits and the meaning of what is written are not decided."
 	r.Rule("C07.bounds", "every load/store through a pointer derived from the packet start is covered by a dominating comparison against data_end that establishes offset+size <= data_end (linear forms over opaque symbols; helpers inlined, constant loops unrolled); stack buffers and map values likewise stay inside their object, and a looked-up map value is dereferenced only after its NULL test", 900)
 	r.Rule("C07.passUnmodified", "a program returns its pass verdict only on paths that have not stored into the frame, unless the frame is one it is specified to act on (write policy per program)", 60)
 	r.Rule("C07.verdict", "every path of a program ends in a return of a defined verdict constant; every loop has a constant trip count; packet pointers are not used after a helper that invalidates them", 60)
@@ -68,7 +69,7 @@ func c07Program(c *Ctx, tu *cfront.TU, fn *cfront.Node) {
 	r := c.R
 	x := runMerge(tu, fn)
 	r.Count("c_functions_inlined_or_run", 1)
-	r.List("programs", fn.Name+" ("+progKind(fn)+", "+tu.Rel+")")
+	r.List("bpf_programs_analysed", fn.Name+" ("+progKind(fn)+", "+tu.Rel+")")
 	var k keyed
 	for _, p := range x.Problems {
 		r.Check("C07.model", fn.Name, k.name(fn.Name, stripPos(p)), posOf(p), false, p)
